@@ -27,7 +27,7 @@ type C15Case struct {
 	Extra   []string `json:"extra_assembly,omitempty"`
 }
 
-var c15Cmds = []string{"generate", "generate-stdin", "compare", "format-check", "renumber-check", "version", "completion", "format", "update", "renumber", "update-copyright"}
+var c15Cmds = []string{"generate", "generate-stdin", "compare", "compare", "format-check", "format-check", "renumber-check", "renumber-check", "version", "completion", "format", "format", "format", "update", "update", "update", "renumber", "renumber", "renumber", "update-copyright", "update-copyright"}
 
 var c15DecoyPool = []string{
 	"regex-assembly/932100.ra.bak", "regex-assembly/932100.ra~", "regex-assembly/notes.md", "regex-assembly/x.ra/", "regex-assembly/x.ra/inside.txt", "regex-assembly/include/readme.txt", "regex-assembly/.hidden.ra.swp", "regex-assembly/data.raw",
